@@ -53,6 +53,24 @@ func (o *observer) holdRead() (func(), error) {
 	}, nil
 }
 
+// holdWrite takes the write lock of the database file on a dedicated connection (BEGIN IMMEDIATE) and returns the
+// function that gives it back
+func (o *observer) holdWrite() (func(), error) {
+	ctx := context.Background()
+	conn, err := o.db.Conn(ctx)
+	if err != nil {
+		return nil, err
+	}
+	if _, err := conn.ExecContext(ctx, "BEGIN IMMEDIATE"); err != nil {
+		_ = conn.Close()
+		return nil, err
+	}
+	return func() {
+		_, _ = conn.ExecContext(ctx, "ROLLBACK")
+		_ = conn.Close()
+	}, nil
+}
+
 type snapshot struct {
 	promises  []*promise.PromiseRecord
 	callbacks []cbRow
